@@ -93,7 +93,7 @@ def run_native(d, model, mode_args=(), trailing=True, cleanup=True, threads=1):
     e = dict(os.environ)
     e['PATH'] = bind + ':' + e.get('PATH', '')
     e.pop('TXTPP_FILE', None)
-    args = [cli, '-q', '-j', str(threads)] + list(mode_args)
+    args = [cli] + list(mode_args) + ['-q', '-j', str(threads)]
     if 'clean' not in mode_args:
         args += ['-s', os.path.join(bind, 'recsh') + ' -c']
         if not trailing:
@@ -140,7 +140,7 @@ def run_native_history(d, model, steps, threads=1):
             os.remove(os.path.join(bind, 'counter'))
         except OSError:
             pass
-        args = [cli, '-q', '-j', str(threads)] + list(mode_args)
+        args = [cli] + list(mode_args) + ['-q', '-j', str(threads)]
         if 'clean' not in mode_args:
             args += ['-s', os.path.join(bind, 'recsh') + ' -c']
             if not trailing:
@@ -154,5 +154,33 @@ def run_native_history(d, model, steps, threads=1):
             t = open(os.path.join(work, 't.tmp'), 'rb').read()
         out.append({'rc': r.returncode, 'output': o, 'temp': t, 'stderr': r.stderr.decode('utf8', 'replace')[-300:],
                     'listing': sorted(os.listdir(work))})
+    shutil.rmtree(root, ignore_errors=True)
+    return out
+
+
+def run_native_inodes(d, model, mode_args):
+    """which pre-existing generated files were rewritten (mtime pre-set to a sentinel / inode compared)"""
+    root, work, bind, res = materialise(d, model)
+    cli = cli_path()
+    e = dict(os.environ)
+    e['PATH'] = bind + ':' + e.get('PATH', '')
+    e.pop('TXTPP_FILE', None)
+    before = {}
+    for f in ('a.txt', 't.tmp'):
+        p = os.path.join(work, f)
+        if os.path.exists(p):
+            os.utime(p, (1000000000, 1000000000))
+            st = os.stat(p)
+            before[f] = (st.st_ino, st.st_mtime_ns)
+    args = [cli] + list(mode_args) + ['-q', '-j', '1', '-s', os.path.join(bind, 'recsh') + ' -c', 'a.txt.txtpp']
+    subprocess.run(args, cwd=work, env=e, stdout=subprocess.PIPE, stderr=subprocess.PIPE, timeout=60)
+    out = {}
+    for f, (ino, mt) in before.items():
+        p = os.path.join(work, f)
+        if os.path.exists(p):
+            st = os.stat(p)
+            out[f] = (st.st_ino, st.st_mtime_ns) != (ino, mt)
+        else:
+            out[f] = True
     shutil.rmtree(root, ignore_errors=True)
     return out
